@@ -115,6 +115,13 @@ def recoverM (h : Bytes) (r s v : Nat) : Except RecErr (Nat × Nat) :=
       let A := toAffineJ Q
       .ok (A.1, A.2.1)
 
+/-- `BruteforceRecoveryCode(hash, pubKey)` on a signature (r, s): the first code 0..3 whose recovery yields the key
+    (found?, the code left in the object — 0xff when none fits) -/
+def bruteforceM (h : Bytes) (r s : Nat) (Q : Nat × Nat) : Bool × Nat :=
+  match [0, 1, 2, 3].find? (fun v => match recoverM h r s v with | .ok p => p == Q | .error _ => false) with
+  | some v => (true, v)
+  | none => (false, 0xff)
+
 /-- `Export()` : (r, s, v) with high s normalised and the code flipped -/
 def exportM (r s v : Nat) : Nat × Nat × Nat :=
   if s > halfN then (r, nneg s, v ^^^ 1) else (r, s, v)
